@@ -38,6 +38,7 @@ Raw    == TLCEval(ndJsonDeserialize(IOEnv.TRACE))
 Starts == TLCEval({ i \in 1..Len(Raw) : Raw[i].e = "reset" })
 EndOf(s) == s + Raw[s].n
 Threads == 0..MaxThread
+Verbose == "VERBOSE" \in DOMAIN IOEnv      \* single-history re-runs print how far the history could be explained
 NoOp == [op |-> "none", a |-> 0, b |-> 0, r |-> 0, v |-> 0, lin |-> FALSE]
 
 VARIABLES h,      \* index of the reset record of the history being validated
@@ -63,10 +64,12 @@ Lin(t) == /\ InRange /\ Ev.e = "ret" /\ pend[t].op # "none" /\ ~pend[t].lin
 Ret == /\ InRange /\ Ev.e = "ret" /\ pend[Ev.t].op # "none" /\ pend[Ev.t].lin
        /\ pend[Ev.t].r = Ev.r /\ pend[Ev.t].v = Ev.v
        /\ pend' = [pend EXCEPT ![Ev.t] = NoOp] /\ l' = l + 1 /\ UNCHANGED <<h, abs>>
+       /\ (Verbose => PrintT(<<"AT", l - h>>))
 
 Obs == /\ InRange /\ Ev.e = "x"
        /\ \E s \in XStep(abs, Ev) : abs' = s
        /\ l' = l + 1 /\ UNCHANGED <<h, pend>>
+       /\ (Verbose => PrintT(<<"AT", l - h>>))
 
 Done == /\ l = EndOf(h) + 1 /\ \A t \in Threads : pend[t].op = "none"
         /\ FinalOk(abs, h)
